@@ -58,6 +58,9 @@ fn main() {
     rep.must("avail_applicable", m(50_000.0));
     rep.must("later_query_new_exchange", m(30_000.0));
     rep.must("nx_untrusted_final", m(3000.0));
+    if ctx.is_thorough() {
+        rep.must("stress_shared_results", m(20_000.0));
+    }
 
     // ---- (a) enumerated part: all ordered tuples of server profiles
     let plans: &[(usize, &[usize], &[u64])] = if ctx.is_thorough() {
@@ -79,7 +82,7 @@ fn main() {
 
     // ---- (b) seeded random scenarios
     let mut rng = ctx.rng("scenarios");
-    let n = ctx.budget(300_000, 6_000_000);
+    let n = ctx.budget(300_000, 30_000_000);
     for _ in 0..n {
         let s = scn::gen_scenario(&mut rng);
         oracle::judge(&mut rep, &s);
